@@ -24,9 +24,49 @@ def opPersons (j : Json) : Except String (List Groupings.Person) := do
     { pid := pid.getD i 0, hh := hh.getD i 0, alter := al.getD i 0,
       partner := pa.getD i (-1), e1 := e1.getD i (-1), e2 := e2.getD i (-1) }
 
+/-- driver state: data loaded once and used by later operations -/
+structure St where
+  raw : Params.Raw := []
+  copied : List String := []
+  groups : List String := []
+  reg : List Params.FnEntry := []
+
+def strs (j : Json) (k : String) : Except String (List String) := do (← jArr (← field j k)).mapM jStr
+
+def opLoadRaw (j : Json) : Except String St := do
+  let groups ← jArr (← field j "raw")
+  let raw ← groups.mapM fun g => match g with
+    | .arr #[.str n, y] => do pure (n, ← jY y)
+    | _ => throw "bad raw group"
+  let reg ← (← jArr (← field j "registry")).mapM fun e => do
+    pure ({ module := ← str e "module", fname := ← str e "fname", dagName := ← str e "dag",
+            timeDependent := ← bool e "td", start := ← int e "start", stop := ← int e "stop" } : Params.FnEntry)
+  pure { raw := raw, copied := ← strs j "copied", groups := ← strs j "groups", reg := reg }
+
+def dateInfo (o : Int) : Json :=
+  let (y, m, d) := Dates.toYMD o
+  Json.mkObj [("ymd", oInts [y, m, d]), ("jan1", oInts [Dates.jan1 o]), ("subYear", oInts [Dates.subYear o]),
+              ("back", oInts [Dates.ofYMD y m d])]
+
+def statefulOp (st : St) (op : String) (j : Json) : Except String (Option (St × Json)) := do
+  match op with
+  | "load_raw" => let st' ← opLoadRaw j; pure (some (st', Json.mkObj [("ok", .str "loaded")]))
+  | "env" =>
+    let r := Params.env st.copied st.groups st.raw 200 (← int j "date")
+    pure (some (st, out oY r))
+  | "group" =>
+    let r := Params.loadGroup st.copied st.raw 200 (← int j "date") (← str j "group") none
+    pure (some (st, out (fun kvs => oY (.dict kvs)) r))
+  | "functions" =>
+    let fs := Params.functionsFor st.reg (← int j "date")
+    pure (some (st, Json.mkObj [("ok", .arr (fs.map fun (n, e) =>
+      Json.arr #[.str n, .str e.module, .str e.fname]).toArray)]))
+  | _ => pure none
+
 def dispatch (j : Json) : Except String Json := do
   let op ← str j "op"
   match op with
+  | "date" => pure (dateInfo (← int j "ord"))
   | "grouped" => opGrouped j
   | "sum_by_p_id" => pure (out oRats (Agg.sumByPid (← rats j "col") (← ints j "ptr") (← ints j "p_id")))
   | "join" => pure (out oRats (Agg.joinNumpy (← ints j "fk") (← ints j "pk") (← rats j "target") (← rat j "dflt")))
